@@ -346,11 +346,16 @@ def run_phasor(case):
     if case.get('w'):
         try:
             from lcapy import expr as lexpr
-            orig = sp.expand(sp.expand_trig(lexpr(ex).sympy))
+            orig = lexpr(ex).sympy
             wv = sp.Rational(case['w'])
-            a_ = orig.coeff(sp.cos(wv * tsym))
-            b_ = orig.coeff(sp.sin(wv * tsym))
+            # x(t) = a cos(w t) + b sin(w t):  a = x(0), b = x(pi / (2 w))
+            a_ = sp.simplify(orig.subs(tsym, 0))
+            b_ = sp.simplify(orig.subs(tsym, sp.pi / (2 * wv)))
             rest = sp.simplify(orig - a_ * sp.cos(wv * tsym) - b_ * sp.sin(wv * tsym))
+            if rest != 0:
+                rv = rest.subs(tsym, sp.Rational(5, 7)).subs({x: sp.Rational(3, 7) for x in rest.free_symbols if x != tsym})
+                if abs(complex(sp.N(rv, 40))) < 1e-25:
+                    rest = sp.Integer(0)
             if rest == 0 and w == wv:
                 d = sp.simplify(sp.expand_complex(sp.sympify(p.sympy) - (a_ - sp.I * b_)))
                 if d == 0:
